@@ -191,7 +191,11 @@ pub fn render_struct(l: &Layout, o: &RenderOpts) -> String {
         }
     }
     if l.debug {
-        args.push("debug".to_string());
+        if l.debug_first && args.len() > 1 {
+            args.insert(1, "debug".to_string());
+        } else {
+            args.push("debug".to_string());
+        }
     }
     if o.docs {
         s.push_str("/// documented bitfield\n");
